@@ -1462,13 +1462,27 @@ def _d5(ctx):
     skips = []
     for lp_ in [x for x in walk_no_nested(ps.node) if isinstance(x, ast.For)]:
         adds = [c_ for c_ in U.calls(lp_) if U.attr_name(c_) == 'add_child_url']
-        for i in [x for x in lp_.body if isinstance(x, ast.If)]:
-            names = {x.id for x in ast.walk(i.test) if isinstance(x, ast.Name)}
-            if adds and names & set(handed) and any(isinstance(x, ast.Attribute) and x.attr == 'linked' for x in ast.walk(i.test)) \
-                    and isinstance(i.test, ast.BoolOp) and isinstance(i.test.op, ast.And) and len(i.test.values) == 2 \
-                    and not any(isinstance(x, ast.UnaryOp) for x in ast.walk(i.test)) \
-                    and i.body and isinstance(i.body[-1], ast.Continue) and not i.orelse and i.lineno < min(c_.lineno for c_ in adds):
-                skips.append(i)
+        lpm = U.parents(lp_)
+        for cont in [x for x in walk_no_nested(lp_) if isinstance(x, ast.Continue)]:
+            # the conjunction of the (possibly nested) if-tests the `continue` sits under, all in their true branch, no else
+            conj, cur, okshape = [], cont, True
+            while True:
+                par = lpm.get(id(cur))
+                if par is lp_ or par is None:
+                    break
+                if isinstance(par, ast.If) and any(cur is x for x in par.body) and not par.orelse:
+                    t = par.test
+                    conj = (list(t.values) if isinstance(t, ast.BoolOp) and isinstance(t.op, ast.And) else [t]) + conj
+                else:
+                    okshape = False
+                cur = par
+            top = cur
+            if not okshape or top not in lp_.body or not adds or not (top.lineno < min(c_.lineno for c_ in adds)):
+                continue
+            flag_c = [x for x in conj if isinstance(x, ast.Name) and x.id in handed]
+            link_c = [x for x in conj if isinstance(x, ast.Attribute) and x.attr == 'linked']
+            if len(conj) == 2 and flag_c and link_c:
+                skips.append(top)
     consumer_ok = consumer_ok and bool(reads) and bool(skips)
     ck.expect(bool(reads) and bool(skips), 'C20-D5b', sd.qual, 'links of every scraper\'s result are dropped when the page said nofollow',
               'scrape_document queues the linked URLs of all scrape results without asking whether the page declared nofollow', sd.loc())
